@@ -495,20 +495,47 @@ def py_int(eng, s, node):
 
 
 # ---- str methods ---------------------------------------------------------------------
+def _drop_ws_literals(z, which, isbytes):
+    """strip(a ++ w) == strip(a) for a whitespace-only literal w (and symmetrically): an identity of str.strip."""
+    from .strlemmas import parts_of
+    ws = set(" \t\n\r\x0b\x0c") if isbytes else set(WS_CHARS)
+    parts = parts_of(z)
+    changed = False
+    def is_ws_lit(t):
+        return z3.is_string_value(t) and all(c in ws for c in _unesc(t))
+    if which in ("strip", "rstrip"):
+        while len(parts) > 1 and is_ws_lit(parts[-1]):
+            parts = parts[:-1]
+            changed = True
+        if len(parts) > 1 and z3.is_string_value(parts[-1]):
+            lit = _unesc(parts[-1])
+            t = lit.rstrip("".join(ws))
+            if t != lit:
+                parts = parts[:-1] + [z3.StringVal(t)]
+                changed = True
+    if which in ("strip", "lstrip"):
+        while len(parts) > 1 and is_ws_lit(parts[0]):
+            parts = parts[1:]
+            changed = True
+    if not changed:
+        return z
+    return parts[0] if len(parts) == 1 else z3.Concat(*parts)
+
+
 def _strip_model(eng, s, which):
     """Complete characterisation of str.strip()/lstrip()/rstrip() without arguments."""
-    z = S(s.z)
+    z = _drop_ws_literals(S(s.z), which, s.isbytes)
     fname = {"strip": "py_strip", "lstrip": "py_lstrip", "rstrip": "py_rstrip"}[which] + ("_b" if s.isbytes else "")
     r = sfun(fname, STR, STR)(z)
     key = ("stripax", fname, z.sexpr())
-    if key in eng.ghost:
+    if not eng.pc.need_axioms(key):
         return VStr(r, s.isbytes)
-    eng.ghost[key] = True
     ws = ws_re() if not s.isbytes else _ranges(list(" \t\n\r\x0b\x0c"))
     nws = non_ws(s.isbytes)
     anyc = any_str()
     lead = z3.String(eng.fresh_name("strip_lead"))
     trail = z3.String(eng.fresh_name("strip_trail"))
+    eng.assume(z3.Contains(z, r))
     if which == "strip":
         eng.assume(z == z3.Concat(lead, r, trail))
         eng.assume(z3.InRe(lead, z3.Star(ws)))
@@ -533,8 +560,7 @@ def _split_model(eng, s, sep, maxsplit=None):
     efun = sfun("split_at_" + tag, STR, INT, STR)
     n = nfun(z)
     key = ("splitax", tag, z.sexpr())
-    if key not in eng.ghost:
-        eng.ghost[key] = True
+    if eng.pc.need_axioms(key):
         sepz = z3.StringVal(sp)
         eng.assume(n >= 1)
         eng.assume((n == 1) == z3.Not(z3.Contains(z, sepz)))
@@ -568,9 +594,9 @@ def _split_model(eng, s, sep, maxsplit=None):
         iz = zint(i)
         e = efun(z, iz)
         k2 = ("splitelem", tag, z.sexpr(), z3.simplify(iz).sexpr())
-        if k2 not in eng.ghost and maxsplit is None:
-            eng.ghost[k2] = True
+        if eng.pc.need_axioms(k2) and maxsplit is None:
             eng.assume(z3.Implies(z3.And(iz >= 0, iz < n), z3.Not(z3.Contains(e, z3.StringVal(sp)))))
+            eng.assume(z3.Implies(z3.And(iz >= 0, iz < n), z3.Contains(z, e)))
         return VStr(e, s.isbytes)
 
     return VList(None, n, get, "bytes" if s.isbytes else "str")
@@ -651,8 +677,7 @@ def str_method(eng, world, s, m, args, kwargs, node):
         def get(i):
             e = efun(zz, zint(i))
             k2 = ("slelem", zz.sexpr(), z3.simplify(zint(i)).sexpr())
-            if k2 not in eng.ghost:
-                eng.ghost[k2] = True
+            if eng.pc.need_axioms(k2):
                 for lb in LINE_BREAKS:
                     eng.assume(z3.Not(z3.Contains(e, z3.StringVal(lb))))
             return VStr(e)
@@ -697,6 +722,15 @@ def str_method(eng, world, s, m, args, kwargs, node):
                 parts.append(eng.force(x))
             return eng.concat_strs(parts, s.isbytes)
         if isinstance(lst, VList):
+            pred = eng.contract.opts.get("join_elem") if eng.contract else None
+            if pred and eng.frame_stack and eng.frame_stack[-1] is eng.frame_stack[0]:
+                # obligation on an arbitrary element of the joined list
+                idx = z3.Int(eng.fresh_name("join_index"))
+                n = zint(lst.n)
+                if eng.branch(z3.And(idx >= 0, idx < n)):
+                    ef = Frame(None, None, {"elem": lst.get(idx)}, "spec/specs.py")
+                    eng.oblige("%s.join_elem" % eng.cur_label, eng.world_clause(pred, ef), kind="assert", site=getattr(node, "lineno", None), note="every joined element: " + pred)
+                    raise PathEnd()
             return join_symbolic(eng, s, lst)
         raise OutOfSubset("join over %r" % (lst,))
     if m == "format":
@@ -946,8 +980,7 @@ def list_sort(eng, world, lst, args, kwargs, node):
     def get(i, f=f):
         iz = zint(i)
         key = ("sortelem", base, z3.simplify(iz).sexpr())
-        if key not in eng.ghost:
-            eng.ghost[key] = True
+        if eng.pc.need_axioms(key):
             p = perm(iz)
             eng.assume(z3.Implies(z3.And(iz >= 0, iz < n), z3.And(p >= 0, p < n, f(iz) == S(eng.force(old_get(p)).z))))
             eng.assume(z3.Implies(z3.And(iz >= 0, iz + 1 < n), f(iz) <= f(iz + 1)))
@@ -1484,8 +1517,7 @@ def _escape_axioms(eng, r, fname, quote):
         t = todo.pop()
         if z3.is_app(t) and t.decl().name() == fname:
             key = ("escax", t.sexpr())
-            if key not in eng.ghost:
-                eng.ghost[key] = True
+            if eng.pc.need_axioms(key):
                 bad = ["<", ">"] + (['"', "'"] if quote else [])
                 for b in bad:
                     eng.assume(z3.Not(z3.Contains(t, z3.StringVal(b))))
@@ -1517,7 +1549,12 @@ def urllib_quote(eng, world, args, kwargs, node):
     q = sfun("pct_enc", STR, STR)
     r = q(b)
     eng.assume(z3.InRe(r, pct_alphabet_re()))
+    for ch in '?#"<>& \r\n\t\\|':
+        eng.assume(z3.Not(z3.Contains(r, z3.StringVal(ch))))
     eng.assume(sfun("pct_dec_bytes", STR, STR)(r) == b)
+    if isinstance(s, VStr) and not s.isbytes and not is_conc(s.z):
+        # the string was encodable (no exception above), so decoding gives it back
+        eng.assume(sfun("se_decode", STR, STR)(b) == S(s.z))
     eng.assume((z3.Length(r) == 0) == (z3.Length(b) == 0))
     eng.assume(z3.Implies(z3.PrefixOf(z3.StringVal("/"), b), z3.PrefixOf(z3.StringVal("/"), r)))
     return VStr(r)
